@@ -272,6 +272,11 @@ def run(ctx):
                              files=files, disk=True,
                              meta={'kind': 'load:maxdepth (configuration file says 1)', 'setting': 'maxdepth', 'flag': False, 'env': False, 'cfg': 'set', 'where': 'flag', 'winner': 'cfg',
                                    'variant': 'one%d' % variant, 'expect': ('status', 'ok') if variant == 0 else ('class', 'depth')}))
+    # every third configuration file carries a comment header of 4 to 7 KB: the entries come after it
+    for k, c in enumerate(cases):
+        if c.cfg and c.cfg.get('exists') and k % 3 == 0:
+            c.cfg = dict(c.cfg, pad=4200 + (k % 5) * 700)
+            ctx.count('configuration file with a long header')
     impl, model = run_apps(ctx, cases)
     # the real binary: a named configuration file that exists but cannot be read is an error; no $HOME / $USER is not a crash
     from .. import core
